@@ -31,6 +31,12 @@ def run_ob(name, entry_q, dq, entry_t=None, dt=None, unwind=64, timeout_q=900, t
     return ob
 
 
+def any_ob(prop, must=None):
+    """RUN harness with commands ending at ANY yield point of any thread (one scheduling delay each), N=2."""
+    return run_ob("%s.run-any" % prop, "VerifHarness_RUN_%s_n2any" % prop, 1, "VerifHarness_RUN_%s_n2any" % prop, 2, timeout_t=3000,
+                  bq={"N": 2, "R": 1, "command_end": "at any yield point of any thread (costs one delay)"}, bt={"N": 2, "R": 1, "command_end": "at any yield point of any thread"}, must=must)
+
+
 DAGPKG = "./internal/dag"
 C13_FLAGS = ["-unwind", "16", "-solver", "cvc5", "-fallback", "z3", "-query-timeout-ms", "5000", "-stub", "@/internal/dag.substituteCommands=subst-cmd"]
 C13_GROUPS = [("schedule", {"tree_depth": 2}), ("env", {"tree_depth": 2}), ("tags", {"tree_depth": 1}), ("params", {"fields": "params (non-evaluating option sets only)"}), ("strings", {"fields": "logDir smtp.host mail.from preconditions"}),
@@ -94,6 +100,7 @@ PROPS = {    "C01": {
              "thorough": {"entry": "VerifHarness_C01_gate4", "flags": ["-unwind", "16"], "bounds": {"N": 4}}},
             run_ob("C01.run", "VerifHarness_RUN_C01_n3", 0, "VerifHarness_RUN_C01_n3", 1, bq={"N": 3, "R": 1}, bt={"N": 3, "R": 1},
                    must=["C01.run/dependency-finished-its-last-attempt"]),
+            any_ob("C01"),
             run_ob("C01.run-d1", "VerifHarness_RUN_C01_n2", 1, "VerifHarness_RUN_C01_n2", 2, bq={"N": 2, "R": 1}, bt={"N": 2, "R": 1},
                    must=["C01.run/dependency-finished-its-last-attempt"]),
         ],
@@ -107,6 +114,7 @@ PROPS = {    "C01": {
              "thorough": {"entry": "VerifHarness_C01_gate4", "flags": ["-unwind", "16"], "bounds": {"N": 4}}},
             run_ob("C02.final", "VerifHarness_RUN_C02_n3", 0, "VerifHarness_RUN_C02_n3", 1, bq={"N": 3, "R": 1}, bt={"N": 3, "R": 1},
                    must=["C02.final/blocked-step-never-executed", "C02.final/unblocked-step-was-executed"]),
+            any_ob("C02"),
             run_ob("C02.final-d1", "VerifHarness_RUN_C02_n2", 1, "VerifHarness_RUN_C02_n2", 2, bq={"N": 2, "R": 1}, bt={"N": 2, "R": 1},
                    must=["C02.final/blocked-step-never-executed"]),
         ],
@@ -117,6 +125,7 @@ PROPS = {    "C01": {
         "obligations": [
             run_ob("C03.count", "VerifHarness_RUN_C03_n3", 0, "VerifHarness_RUN_C03_n3", 1, bq={"N": 3, "R": 1}, bt={"N": 3, "R": 1},
                    must=["C03.count/failing-step-is-retried-until-limit", "C03.count/recorded-retry-count-equals-extra-attempts"]),
+            any_ob("C03"),
             run_ob("C03.count-d1", "VerifHarness_RUN_C03_n2", 1, "VerifHarness_RUN_C03_n2", 2, bq={"N": 2, "R": 2}, bt={"N": 2, "R": 2},
                    must=["C03.count/failing-step-is-retried-until-limit"]),
             ag_ob("C03.dryagent", "VerifHarness_AG_dry", ["C03."], ["C03.dryagent/no-history-is-written", "C03.dryagent/no-step-or-handler-command-runs"], {"steps": 2, "shape": "chain | parallel", "handlers": "onExit"}),
@@ -134,6 +143,7 @@ PROPS = {    "C01": {
             ag_ob("C04.precond", "VerifHarness_AG_precond", ["C04."], ["C04.precond/no-step-and-no-handler-runs", "C04.precond/nothing-is-recorded"], {"steps": 1, "dag_preconditions": "met | unmet (literal)"}),
             run_ob("C04.run", "VerifHarness_RUN_C04_n2", 0, "VerifHarness_RUN_C04_n3", 0, bq={"N": 2, "R": 1, "handlers": "every subset", "stop": "at quiescent points"}, bt={"N": 3, "R": 1},
                    must=["C04.handlers/matching-handler-runs-exactly-once", "C04.handlers/exit-handler-runs-last", "C04.inv/failed-step-implies-last-error"]),
+            any_ob("C04"),
             run_ob("C04.run-d1", "VerifHarness_RUN_C04_n2s", 1, "VerifHarness_RUN_C04_n2", 1, bq={"N": 2, "R": 0, "handlers": "every subset", "stop": "at any yield point"}, bt={"N": 2, "R": 1},
                    must=["C04.handlers/matching-handler-runs-exactly-once"]),
         ],
@@ -154,6 +164,7 @@ PROPS = {    "C01": {
                   {"steps": 1, "process": "ignores the stop signal, ends on its own at any later point", "stop": "while the process runs"}),
             run_ob("C05.timeout", "VerifHarness_RUN_C05_timeout", 0, None, None, bq={"N": 2, "R": 1, "timeout": "1h on a symbolic clock; expiry at any quiescent point, consistent with the program clock"},
                    must=["C05.timeout/no-step-command-starts-after-the-timeout", "C05.timeout/every-step-is-labelled-when-the-run-ends", "C05.timeout/timed-out-run-ends-canceled"]),
+            any_ob("C05"),
             run_ob("C05.stop-d1", "VerifHarness_RUN_C05_n2", 1, "VerifHarness_RUN_C05_n2h", 1, bq={"N": 2, "R": 1, "stop": "at any yield point"}, bt={"N": 2, "R": 1, "handlers": "every subset"},
                    must=["C05.nolaunch/no-step-command-starts-after-stop-accepted"]),
         ],
@@ -164,6 +175,7 @@ PROPS = {    "C01": {
         "obligations": [
             run_ob("C15.run", "VerifHarness_RUN_C15_n3", 0, "VerifHarness_RUN_C15_n4", 0, bq={"N": 3, "R": 1, "k": "0..N+1"}, bt={"N": 4, "R": 0, "k": "0..N+1"},
                    must=["C15.run/at-most-k-steps-executing"]),
+            any_ob("C15"),
             run_ob("C15.run-d1", "VerifHarness_RUN_C15_n2", 1, "VerifHarness_RUN_C15_n3", 1, bq={"N": 2, "R": 1, "k": "0..N+1"}, bt={"N": 3, "R": 1},
                    must=["C15.run/at-most-k-steps-executing"]),
         ],
@@ -216,6 +228,8 @@ PROPS = {    "C01": {
                        "bounds": {"socket": "live (same run | other run) | dead", "persisted": "all 5 values"}}},
             ag_ob("C08.final", "VerifHarness_AG_run", ["C08.", "C04.handlers"], ["C08.final/final-status-is-final", "C08.final/attempt-counts-are-recorded", "C08.final/overall-status-matches-the-steps"], {"steps": "2 (chain)", "outcomes": "symbolic per attempt"}),
             run_ob("C08.persist", "VerifHarness_RUN_C08_n3", 0, "VerifHarness_RUN_C08_n3", 1, bq={"N": 3, "R": 1}, bt={"N": 3, "R": 1},
+                   must=["C08.persist/run-in-progress-is-not-recorded-as-succeeded"]),
+            run_ob("C08.persist-any", "VerifHarness_RUN_C08_n2any", 2, None, None, bq={"N": 2, "R": 0, "command_end": "at any yield point of any thread (one scheduling delay each), not only at quiescent points"},
                    must=["C08.persist/run-in-progress-is-not-recorded-as-succeeded"]),
             run_ob("C08.persist-d1", "VerifHarness_RUN_C08_n2", 1, "VerifHarness_RUN_C08_n2", 2, bq={"N": 2, "R": 1}, bt={"N": 2, "R": 1},
                    must=["C08.persist/run-in-progress-is-not-recorded-as-succeeded"]),
